@@ -3,263 +3,615 @@
 //   - DONE_TIMEOUT, SIGTERM_TIMEOUT, SIGINT_TIMEOUT, KILL_TRANSITION_TIMEOUT (controllabletask.go),
 //     startupPollingInterval, startupTimeout (task.go), in milliseconds,
 //   - the delay of the TASK_RUNNING timer and the capacity of pendingFinalTaskStateCh in doLaunch,
-//   - whether ensureBasicTaskKilled tests `ProcessState != nil` before calling Exited() on it.
-// It also checks the skeleton the model takes for granted and fails when it is not found:
-//   ensureBasicTaskKilled: nil command -> return, HOOK -> return, reaped child (ProcessState != nil)
-//     -> sweep the group and return, else non-blocking send of TASK_KILLED on the pending channel
-//     before syscall.Kill(-pid, SIGKILL);
-//   basicTaskBase.Kill: stops the RUNNING timer, ensureBasicTaskKilled, drops the command handle,
-//     sends TASK_FINISHED;
-//   ControllableTask.Kill: returns an error when t.rpc is nil, starts with t.rpc.GetState, pushes
-//     TASK_FINISHED iff reachedState == "DONE" (then sleeps DONE_TIMEOUT), else TASK_KILLED, then
-//     pidExists -> doTermIntKill, then SIGKILL to the process group;
-//   doTermIntKill: SIGTERM, Sleep(SIGTERM_TIMEOUT), pidExists -> SIGINT, Sleep(SIGINT_TIMEOUT),
-//     !pidExists -> return, doKill9;
-//   the reaper of startBasicTask / Launch polls pendingFinalTaskStateCh without blocking.
+//   - whether ensureBasicTaskKilled tests `ProcessState != nil` before it posts / signals.
+//
+// It also checks the skeleton the model takes for granted and fails when it is not found.  The
+// skeleton is not matched on the program text but on a stream of abstract operations computed from
+// the AST of each function, in source order, with calls to unexported functions / methods of the
+// package inlined (three levels deep, parameters substituted by the arguments), package-level
+// constants resolved, switch cases and if conditions both reduced to the atomic tests they make:
+//
+//	test:cmd-nil test:rpc-nil test:reaped test:exited test:hook test:"STATE"
+//	post:<STATE>:<nb|blk>   send on pendingFinalTaskStateCh (nb = in a select with default)
+//	take:<nb|blk>           receive from it
+//	kill:<grp|pid>:<SIG>    syscall.Kill(-x | x, SIG)
+//	sleep:<ms> after:<ms> timer:<ms> timerstop mkchan:<cap>
+//	status:<STATE|var> devevent start wait dial getstate rpcclose rpc=nil cmd=nil pidExists
+//	call:<helper> ret
+//
+// The requirements are short ordered chains of such operations (only between operations that depend
+// on each other), so that extracted helpers, renamed locals, named constants, if/else <-> switch
+// <-> early return, merged or split case arms, hoisted expressions, reordered independent
+// statements and comments do not matter, while a missing, reordered or differently aimed operation
+// does (see the chains in trExecTask).
 package main
 
 import (
-	"bytes"
 	"fmt"
 	"go/ast"
-	"go/printer"
+	"go/parser"
 	"go/token"
-	"regexp"
+	"os"
+	"path/filepath"
+	"sort"
 	"strings"
+	"unicode"
 )
 
 func init() { translators["exectask"] = trExecTask }
 
-// durationMs evaluates `N * time.Unit` (or `time.Unit`) to milliseconds.
-func durationMs(e ast.Expr) (int64, bool) {
-	unit := func(x ast.Expr) (int64, bool) {
-		sel, ok := x.(*ast.SelectorExpr)
-		if !ok {
-			return 0, false
-		}
-		if id, ok := sel.X.(*ast.Ident); !ok || id.Name != "time" {
-			return 0, false
-		}
-		switch sel.Sel.Name {
-		case "Millisecond":
-			return 1, true
-		case "Second":
-			return 1000, true
-		case "Minute":
-			return 60000, true
-		}
-		return 0, false
-	}
-	if u, ok := unit(e); ok {
-		return u, true
-	}
-	be, ok := e.(*ast.BinaryExpr)
-	if !ok || be.Op != token.MUL {
-		return 0, false
-	}
-	if n, ok := intLit(be.X); ok {
-		if u, ok := unit(be.Y); ok {
-			return n * u, true
-		}
-	}
-	if n, ok := intLit(be.Y); ok {
-		if u, ok := unit(be.X); ok {
-			return n * u, true
-		}
-	}
-	return 0, false
+// ---------- the package: every function and package-level constant of executor/executable ----------
+
+type etPkg struct {
+	funcs  map[string]*ast.FuncDecl // "Recv.name" and "name"
+	consts map[string]ast.Expr
 }
 
-func etSrc(fset *token.FileSet, n ast.Node) string {
-	var b bytes.Buffer
-	printer.Fprint(&b, fset, n)
-	// one line, single blanks: the checks below are about order of constructs, not layout
-	return strings.Join(strings.Fields(b.String()), " ")
-}
-
-// etOrder checks that the regular expressions match in this order (each after the previous match).
-func etOrder(what, src string, pats ...string) {
-	pos := 0
-	for _, p := range pats {
-		re := regexp.MustCompile(p)
-		loc := re.FindStringIndex(src[pos:])
-		if loc == nil {
-			die("exectask: %s: expected `%s` (in this order) not found", what, p)
+func etLoadPkg(dir string) *etPkg {
+	p := &etPkg{funcs: map[string]*ast.FuncDecl{}, consts: map[string]ast.Expr{}}
+	names, _ := filepath.Glob(filepath.Join(repo, dir, "*.go"))
+	sort.Strings(names)
+	for _, n := range names {
+		b := filepath.Base(n)
+		if strings.HasSuffix(b, "_test.go") || strings.HasPrefix(b, "zz_verif_") || strings.Contains(b, "_darwin") {
+			continue
 		}
-		pos += loc[1]
-	}
-}
-
-func trExecTask() string {
-	fsetC, fc := parseFile("executor/executable/controllabletask.go")
-	fsetB, fb := parseFile("executor/executable/basictaskcommon.go")
-	_, ft := parseFile("executor/executable/task.go")
-
-	ms := func(f *ast.File, name string) int64 {
-		v := findValue(f, name)
-		if v == nil {
-			die("exectask: constant %s not found", name)
+		f, err := parser.ParseFile(token.NewFileSet(), n, nil, 0)
+		if err != nil {
+			die("exectask: cannot parse %s: %v", n, err)
 		}
-		n, ok := durationMs(v)
-		if !ok {
-			die("exectask: constant %s is not of the form N * time.Unit", name)
-		}
-		return n
-	}
-	doneMs := ms(fc, "DONE_TIMEOUT")
-	termMs := ms(fc, "SIGTERM_TIMEOUT")
-	intMs := ms(fc, "SIGINT_TIMEOUT")
-	killTrMs := ms(fc, "KILL_TRANSITION_TIMEOUT")
-	pollMs := ms(ft, "startupPollingInterval")
-	startMs := ms(ft, "startupTimeout")
-
-	// ---- doLaunch: channel capacity and RUNNING timer
-	dl := findFunc(fb, "basicTaskBase", "doLaunch")
-	if dl == nil {
-		die("exectask: basicTaskBase.doLaunch not found")
-	}
-	capv, runMs := int64(-1), int64(-1)
-	ast.Inspect(dl, func(x ast.Node) bool {
-		c, ok := x.(*ast.CallExpr)
-		if !ok {
-			return true
-		}
-		if id, ok := c.Fun.(*ast.Ident); ok && id.Name == "make" && len(c.Args) >= 1 {
-			if _, isChan := c.Args[0].(*ast.ChanType); isChan {
-				capv = 0
-				if len(c.Args) >= 2 {
-					n, ok := intLit(c.Args[1])
-					if !ok {
-						die("exectask: capacity of pendingFinalTaskStateCh is not a literal")
+		for _, d := range f.Decls {
+			switch x := d.(type) {
+			case *ast.FuncDecl:
+				key := x.Name.Name
+				if x.Recv != nil && len(x.Recv.List) == 1 {
+					t := x.Recv.List[0].Type
+					if st, ok := t.(*ast.StarExpr); ok {
+						t = st.X
 					}
-					capv = n
+					if id, ok := t.(*ast.Ident); ok {
+						p.funcs[id.Name+"."+key] = x
+					}
+				}
+				if _, dup := p.funcs[key]; !dup {
+					p.funcs[key] = x
+				}
+			case *ast.GenDecl:
+				for _, sp := range x.Specs {
+					if vs, ok := sp.(*ast.ValueSpec); ok {
+						for i, nm := range vs.Names {
+							if i < len(vs.Values) {
+								p.consts[nm.Name] = vs.Values[i]
+							}
+						}
+					}
 				}
 			}
 		}
-		if sel, ok := c.Fun.(*ast.SelectorExpr); ok && sel.Sel.Name == "AfterFunc" && len(c.Args) == 2 {
-			n, ok := durationMs(c.Args[0])
-			if !ok {
-				die("exectask: delay of the TASK_RUNNING timer is not N * time.Unit")
+	}
+	if len(p.funcs) == 0 {
+		die("exectask: no Go source found in %s", dir)
+	}
+	return p
+}
+
+type etEnv map[string]ast.Expr
+
+// subst replaces parameter names by the argument expressions of the inlined call.
+func (env etEnv) subst(e ast.Expr) ast.Expr {
+	switch x := e.(type) {
+	case *ast.Ident:
+		if v, ok := env[x.Name]; ok {
+			return v
+		}
+	case *ast.ParenExpr:
+		return env.subst(x.X)
+	case *ast.UnaryExpr:
+		return &ast.UnaryExpr{Op: x.Op, X: env.subst(x.X)}
+	case *ast.CallExpr: // conversions like int(sig), syscall.Signal(x)
+		if len(x.Args) == 1 {
+			if id, ok := x.Fun.(*ast.Ident); ok && (id.Name == "int" || id.Name == "Signal") {
+				return env.subst(x.Args[0])
 			}
-			runMs = n
+		}
+	}
+	return e
+}
+
+// evalMs evaluates a duration expression (N * time.Unit, named constants, sums, products) to ms.
+func (p *etPkg) evalMs(e ast.Expr, env etEnv, depth int) (val int64, isDur bool, ok bool) {
+	if depth > 8 {
+		return 0, false, false
+	}
+	switch x := e.(type) {
+	case *ast.ParenExpr:
+		return p.evalMs(x.X, env, depth+1)
+	case *ast.BasicLit:
+		n, ok := intLit(x)
+		return n, false, ok
+	case *ast.Ident:
+		if v, ok := env[x.Name]; ok {
+			return p.evalMs(v, nil, depth+1)
+		}
+		if v, ok := p.consts[x.Name]; ok {
+			return p.evalMs(v, nil, depth+1)
+		}
+	case *ast.SelectorExpr:
+		if id, ok := x.X.(*ast.Ident); ok && id.Name == "time" {
+			switch x.Sel.Name {
+			case "Millisecond":
+				return 1, true, true
+			case "Second":
+				return 1000, true, true
+			case "Minute":
+				return 60000, true, true
+			}
+		}
+	case *ast.CallExpr: // time.Duration(n)
+		if len(x.Args) == 1 {
+			return p.evalMs(x.Args[0], env, depth+1)
+		}
+	case *ast.BinaryExpr:
+		a, ad, ok1 := p.evalMs(x.X, env, depth+1)
+		b, bd, ok2 := p.evalMs(x.Y, env, depth+1)
+		if !ok1 || !ok2 {
+			return 0, false, false
+		}
+		switch x.Op {
+		case token.MUL:
+			return a * b, ad || bd, true
+		case token.ADD:
+			return a + b, ad || bd, true
+		case token.SUB:
+			return a - b, ad || bd, true
+		}
+	}
+	return 0, false, false
+}
+
+func (p *etPkg) ms(e ast.Expr, env etEnv) string {
+	v, _, ok := p.evalMs(e, env, 0)
+	if !ok {
+		return "?"
+	}
+	return fmt.Sprint(v)
+}
+
+func etSelName(e ast.Expr) string {
+	if s, ok := e.(*ast.SelectorExpr); ok {
+		return s.Sel.Name
+	}
+	return ""
+}
+
+func etIsNil(e ast.Expr) bool { id, ok := e.(*ast.Ident); return ok && id.Name == "nil" }
+
+// constant name of a selector / identifier after substitution and constant resolution, e.g. SIGKILL, TASK_KILLED
+func (p *etPkg) constName(e ast.Expr, env etEnv, depth int) string {
+	e = env.subst(e)
+	switch x := e.(type) {
+	case *ast.SelectorExpr:
+		return x.Sel.Name
+	case *ast.Ident:
+		if v, ok := p.consts[x.Name]; ok && depth < 4 {
+			return p.constName(v, nil, depth+1)
+		}
+	}
+	return "var"
+}
+
+type etWalker struct {
+	p      *etPkg
+	toks   []string
+	nb     map[ast.Node]bool
+	active map[string]bool
+}
+
+func (w *etWalker) emit(t string) { w.toks = append(w.toks, t) }
+
+func etRecvTypeOf(fd *ast.FuncDecl) string {
+	if fd.Recv == nil || len(fd.Recv.List) != 1 {
+		return ""
+	}
+	t := fd.Recv.List[0].Type
+	if st, ok := t.(*ast.StarExpr); ok {
+		t = st.X
+	}
+	if id, ok := t.(*ast.Ident); ok {
+		return id.Name
+	}
+	return ""
+}
+
+// embedded receivers: a method of basicTaskBase may be called on BasicTask / HookTask
+func (w *etWalker) lookup(name string) *ast.FuncDecl {
+	if fd, ok := w.p.funcs[name]; ok {
+		return fd
+	}
+	return nil
+}
+
+// names that are assigned more than once in the body: never treated as hoisted sub-expressions
+func etMutable(n ast.Node) map[string]bool {
+	defs := map[string]int{}
+	mut := map[string]bool{}
+	ast.Inspect(n, func(x ast.Node) bool {
+		switch v := x.(type) {
+		case *ast.AssignStmt:
+			for _, l := range v.Lhs {
+				if id, ok := l.(*ast.Ident); ok {
+					if v.Tok == token.DEFINE {
+						defs[id.Name]++
+						if defs[id.Name] > 1 {
+							mut[id.Name] = true
+						}
+					} else {
+						mut[id.Name] = true
+					}
+				}
+			}
+		case *ast.IncDecStmt:
+			if id, ok := v.X.(*ast.Ident); ok {
+				mut[id.Name] = true
+			}
+		case *ast.RangeStmt:
+			for _, e := range []ast.Expr{v.Key, v.Value} {
+				if id, ok := e.(*ast.Ident); ok {
+					mut[id.Name] = true
+				}
+			}
 		}
 		return true
 	})
-	if capv < 0 || runMs < 0 {
-		die("exectask: doLaunch: make(chan ...) or time.AfterFunc not found")
+	return mut
+}
+
+func (w *etWalker) walk(n ast.Node, env etEnv, depth int) {
+	mutable := etMutable(n)
+	ast.Inspect(n, func(x ast.Node) bool {
+		switch v := x.(type) {
+		case *ast.SelectStmt:
+			hasDefault := false
+			for _, c := range v.Body.List {
+				if cc, ok := c.(*ast.CommClause); ok && cc.Comm == nil {
+					hasDefault = true
+				}
+			}
+			if hasDefault {
+				for _, c := range v.Body.List {
+					if cc, ok := c.(*ast.CommClause); ok && cc.Comm != nil {
+						ast.Inspect(cc.Comm, func(y ast.Node) bool {
+							switch y.(type) {
+							case *ast.SendStmt, *ast.UnaryExpr:
+								w.nb[y] = true
+							}
+							return true
+						})
+					}
+				}
+			}
+		case *ast.ReturnStmt:
+			w.emit("ret")
+		case *ast.CaseClause:
+			for _, e := range v.List {
+				if s, ok := strLit(e); ok {
+					w.emit(`test:"` + s + `"`)
+				}
+			}
+		case *ast.SendStmt:
+			if etSelName(v.Chan) == "pendingFinalTaskStateCh" {
+				mode := "blk"
+				if w.nb[v] {
+					mode = "nb"
+				}
+				w.emit("post:" + strings.TrimPrefix(w.p.constName(v.Value, env, 0), "TASK_") + ":" + mode)
+			}
+		case *ast.UnaryExpr:
+			if v.Op == token.ARROW && etSelName(v.X) == "pendingFinalTaskStateCh" {
+				mode := "blk"
+				if w.nb[v] {
+					mode = "nb"
+				}
+				w.emit("take:" + mode)
+			}
+		case *ast.AssignStmt:
+			// a hoisted sub-expression: `x := <simple expression>` is remembered like a parameter
+			if v.Tok == token.DEFINE && len(v.Lhs) == 1 && len(v.Rhs) == 1 {
+				if id, ok := v.Lhs[0].(*ast.Ident); ok && id.Name != "_" && !mutable[id.Name] {
+					switch v.Rhs[0].(type) {
+					case *ast.UnaryExpr, *ast.SelectorExpr, *ast.BasicLit, *ast.Ident, *ast.BinaryExpr, *ast.ParenExpr:
+						if env != nil {
+							env[id.Name] = env.subst(v.Rhs[0])
+						}
+					}
+				}
+			}
+			if len(v.Lhs) == 1 && len(v.Rhs) == 1 && etIsNil(v.Rhs[0]) {
+				switch etSelName(v.Lhs[0]) {
+				case "rpc":
+					w.emit("rpc=nil")
+				case "taskCmd":
+					w.emit("cmd=nil")
+				}
+			}
+		case *ast.BinaryExpr:
+			if v.Op == token.EQL || v.Op == token.NEQ {
+				for _, pair := range [][2]ast.Expr{{v.X, v.Y}, {v.Y, v.X}} {
+					a, b := pair[0], pair[1]
+					if etIsNil(b) {
+						switch etSelName(a) {
+						case "rpc":
+							w.emit("test:rpc-nil")
+						case "taskCmd":
+							w.emit("test:cmd-nil")
+						case "ProcessState":
+							w.emit("test:reaped")
+						}
+					}
+					if s, ok := strLit(env.subst(b)); ok {
+						w.emit(`test:"` + s + `"`)
+					}
+					if etSelName(b) == "HOOK" {
+						w.emit("test:hook")
+					}
+				}
+			}
+		case *ast.CallExpr:
+			w.call(v, env, depth)
+		}
+		return true
+	})
+}
+
+func (w *etWalker) call(c *ast.CallExpr, env etEnv, depth int) {
+	name, recvExpr := "", ast.Expr(nil)
+	pkgQual := ""
+	switch f := c.Fun.(type) {
+	case *ast.Ident:
+		name = f.Name
+	case *ast.SelectorExpr:
+		name = f.Sel.Name
+		recvExpr = f.X
+		if id, ok := f.X.(*ast.Ident); ok {
+			pkgQual = id.Name
+		}
+	default:
+		return
 	}
-	etOrder("doLaunch", etSrc(fsetB, dl), `pendingFinalTaskStateCh = make\(chan`, `t\.runningTimer = time\.AfterFunc\(`, `sendStatus\([^)]*TASK_RUNNING`)
+	switch {
+	case pkgQual == "syscall" && name == "Kill" && len(c.Args) == 2:
+		tgt := "pid"
+		if u, ok := env.subst(c.Args[0]).(*ast.UnaryExpr); ok && u.Op == token.SUB {
+			tgt = "grp"
+		}
+		w.emit("kill:" + tgt + ":" + strings.TrimPrefix(w.p.constName(c.Args[1], env, 0), "SIG"))
+		return
+	case pkgQual == "time" && name == "Sleep" && len(c.Args) == 1:
+		w.emit("sleep:" + w.p.ms(c.Args[0], env))
+		return
+	case pkgQual == "time" && name == "After" && len(c.Args) == 1:
+		w.emit("after:" + w.p.ms(c.Args[0], env))
+		return
+	case pkgQual == "time" && name == "AfterFunc" && len(c.Args) == 2:
+		w.emit("timer:" + w.p.ms(c.Args[0], env))
+		return
+	case recvExpr == nil && name == "make" && len(c.Args) >= 1:
+		if _, isChan := c.Args[0].(*ast.ChanType); isChan {
+			capv := "0"
+			if len(c.Args) >= 2 {
+				capv = w.p.ms(c.Args[1], env)
+			}
+			w.emit("mkchan:" + capv)
+		}
+		return
+	case recvExpr == nil && name == "pidExists":
+		w.emit("pidExists")
+		return
+	case name == "sendStatus" && len(c.Args) >= 2:
+		w.emit("status:" + strings.TrimPrefix(w.p.constName(c.Args[1], env, 0), "TASK_"))
+		return
+	case name == "sendDeviceEvent":
+		w.emit("devevent")
+		return
+	case name == "NewClient":
+		w.emit("dial")
+		return
+	case name == "GetState":
+		w.emit("getstate")
+		return
+	case name == "Exited" && len(c.Args) == 0:
+		w.emit("test:exited")
+		return
+	case name == "Wait" && len(c.Args) == 0 && recvExpr != nil:
+		w.emit("wait")
+		return
+	case name == "Start" && len(c.Args) == 0 && recvExpr != nil:
+		w.emit("start")
+		return
+	case name == "Close" && etSelName(recvExpr) == "rpc":
+		w.emit("rpcclose")
+		return
+	case name == "Stop" && etSelName(recvExpr) == "runningTimer":
+		w.emit("timerstop")
+		return
+	}
+	// an unexported function or method of the package: inline it
+	if name == "" || !unicode.IsLower(rune(name[0])) || (pkgQual != "" && recvExpr != nil && w.lookup(name) == nil) {
+		return
+	}
+	fd := w.lookup(name)
+	if fd == nil || fd.Body == nil {
+		return
+	}
+	if (fd.Recv == nil) != (recvExpr == nil) {
+		return
+	}
+	w.emit("call:" + name)
+	if depth >= 3 || w.active[name] {
+		return
+	}
+	ne := etEnv{}
+	i := 0
+	if fd.Type.Params != nil {
+		for _, fl := range fd.Type.Params.List {
+			for _, nm := range fl.Names {
+				if i < len(c.Args) {
+					ne[nm.Name] = env.subst(c.Args[i])
+				}
+				i++
+			}
+		}
+	}
+	w.active[name] = true
+	w.walk(fd.Body, ne, depth+1)
+	delete(w.active, name)
+}
+
+func (p *etPkg) tokens(recv, name string) []string {
+	key := name
+	if recv != "" {
+		key = recv + "." + name
+	}
+	fd := p.funcs[key]
+	if fd == nil || fd.Body == nil {
+		die("exectask: %s not found", key)
+	}
+	w := &etWalker{p: p, nb: map[ast.Node]bool{}, active: map[string]bool{name: true}}
+	w.walk(fd.Body, etEnv{}, 0)
+	return w.toks
+}
+
+// etChain: the operations occur in this order (not necessarily adjacent).  An element may list
+// alternatives separated by '|'.
+func etChain(what string, toks []string, chain ...string) {
+	pos := 0
+	for _, want := range chain {
+		alts := strings.Split(want, "|")
+		found := -1
+		for i := pos; i < len(toks) && found < 0; i++ {
+			for _, a := range alts {
+				if toks[i] == a || (strings.HasSuffix(a, ":") && strings.HasPrefix(toks[i], a)) {
+					found = i
+				}
+			}
+		}
+		if found < 0 {
+			die("exectask: %s: expected operation `%s` of the chain [%s] not found (in this order) among: %s",
+				what, want, strings.Join(chain, " ; "), strings.Join(toks, " "))
+		}
+		pos = found + 1
+	}
+}
+
+func etIndex(toks []string, prefix string) int {
+	for i, t := range toks {
+		if strings.HasPrefix(t, prefix) {
+			return i
+		}
+	}
+	return -1
+}
+
+func trExecTask() string {
+	p := etLoadPkg("executor/executable")
+	msOf := func(name string) int64 {
+		v, ok := p.consts[name]
+		if !ok {
+			die("exectask: constant %s not found", name)
+		}
+		n, _, ok := p.evalMs(v, nil, 0)
+		if !ok {
+			die("exectask: constant %s is not a duration expression the translator can evaluate", name)
+		}
+		return n
+	}
+	doneMs := msOf("DONE_TIMEOUT")
+	termMs := msOf("SIGTERM_TIMEOUT")
+	intMs := msOf("SIGINT_TIMEOUT")
+	killTrMs := msOf("KILL_TRANSITION_TIMEOUT")
+	pollMs := msOf("startupPollingInterval")
+	startMs := msOf("startupTimeout")
+	sl := func(ms int64) string { return fmt.Sprintf("sleep:%d", ms) }
+
+	// ---- doLaunch: channel capacity and RUNNING timer
+	dl := p.tokens("basicTaskBase", "doLaunch")
+	etChain("doLaunch", dl, "timer:", "status:RUNNING")
+	var capv, runMs int64 = -1, -1
+	for _, t := range dl {
+		if strings.HasPrefix(t, "mkchan:") {
+			fmt.Sscan(strings.TrimPrefix(t, "mkchan:"), &capv)
+		}
+		if strings.HasPrefix(t, "timer:") {
+			fmt.Sscan(strings.TrimPrefix(t, "timer:"), &runMs)
+		}
+	}
+	if capv < 0 || runMs < 0 {
+		die("exectask: doLaunch: make(chan ...) with a constant capacity or time.AfterFunc with a constant delay not found among: %s", strings.Join(dl, " "))
+	}
 
 	// ---- ensureBasicTaskKilled
-	ek := findFunc(fb, "basicTaskBase", "ensureBasicTaskKilled")
-	if ek == nil {
-		die("exectask: ensureBasicTaskKilled not found")
+	ek := p.tokens("basicTaskBase", "ensureBasicTaskKilled")
+	firstPost := etIndex(ek, "post:")
+	guardAt := etIndex(ek, "test:reaped")
+	guard := guardAt >= 0 && (firstPost < 0 || guardAt < firstPost)
+	if !guard && etIndex(ek, "test:exited") < 0 {
+		die("exectask: ensureBasicTaskKilled: no test of ProcessState found among: %s", strings.Join(ek, " "))
 	}
-	// the test that keeps STOP from touching a nil ProcessState: `if t.taskCmd.ProcessState != nil { ... return nil }`
-	guard := false
-	usesExited := false
-	ast.Inspect(ek, func(x ast.Node) bool {
-		is, ok := x.(*ast.IfStmt)
-		if !ok {
-			return true
+	etChain("ensureBasicTaskKilled", ek, "test:cmd-nil", "kill:grp:KILL")
+	etChain("ensureBasicTaskKilled", ek, "test:hook", "kill:grp:KILL")
+	etChain("ensureBasicTaskKilled", ek, "test:reaped|test:exited", "post:KILLED:nb", "kill:grp:KILL")
+	for _, t := range ek {
+		if strings.HasPrefix(t, "post:") && t != "post:KILLED:nb" {
+			die("exectask: ensureBasicTaskKilled: unexpected %s (the model posts TASK_KILLED without blocking)", t)
 		}
-		cond := etSrc(fsetB, is.Cond)
-		if strings.Contains(cond, "ProcessState.Exited()") {
-			usesExited = true
-			if be, ok := is.Cond.(*ast.BinaryExpr); ok && be.Op == token.LAND && etSrc(fsetB, be.X) == "t.taskCmd.ProcessState != nil" {
-				guard = true
-			}
-		}
-		if cond == "t.taskCmd.ProcessState != nil" {
-			guard = true
-		}
-		return true
-	})
-	if !guard && !usesExited {
-		die("exectask: ensureBasicTaskKilled: no test of ProcessState found")
 	}
-	etOrder("ensureBasicTaskKilled", etSrc(fsetB, ek),
-		`if t\.taskCmd == nil \{ return nil \}`,
-		`if t\.Tci\.ControlMode == controlmode\.HOOK \{ return nil \}`,
-		`\w+ := t\.taskCmd\.Process\.Pid`,
-		`if t\.taskCmd\.ProcessState != nil \{`,
-		`syscall\.Kill\(-\w+, syscall\.SIGKILL\) return nil \}`,
-		`select \{ case t\.pendingFinalTaskStateCh <- mesos\.TASK_KILLED: default: \}`,
-		`syscall\.Kill\(-\w+, syscall\.SIGKILL\)`)
 
 	// ---- basicTaskBase.Kill
-	bk := findFunc(fb, "basicTaskBase", "Kill")
-	if bk == nil {
-		die("exectask: basicTaskBase.Kill not found")
-	}
-	bks := etSrc(fsetB, bk)
-	etOrder("basicTaskBase.Kill", bks, `t\.ensureBasicTaskKilled\(\)`, `t\.taskCmd = nil`, `t\.runningTimer\.Stop\(\)`, `go t\.sendStatus\([^)]*TASK_FINISHED`)
+	bk := p.tokens("basicTaskBase", "Kill")
+	etChain("basicTaskBase.Kill", bk, "call:ensureBasicTaskKilled", "cmd=nil")
+	etChain("basicTaskBase.Kill", bk, "timerstop")
+	etChain("basicTaskBase.Kill", bk, "status:FINISHED")
 
 	// ---- reaper of startBasicTask
-	sb := findFunc(fb, "basicTaskBase", "startBasicTask")
-	if sb == nil {
-		die("exectask: startBasicTask not found")
-	}
-	etOrder("startBasicTask", etSrc(fsetB, sb),
-		`taskCmd\.Wait\(\)`, `\w+ := mesos\.TASK_FINISHED`, `\w+ = mesos\.TASK_FAILED`,
-		`\w+ = true`,
-		`select \{ case \w+ := <-t\.pendingFinalTaskStateCh: \w+ = \w+ \w+ = false default: \}`,
-		`BASIC_TASK_TERMINATED`, `t\.sendDeviceEvent\(`)
+	sb := p.tokens("basicTaskBase", "startBasicTask")
+	etChain("startBasicTask", sb, "start", "wait", "take:nb", "devevent")
 
-	// ---- ControllableTask.Kill / doTermIntKill / Launch reaper
-	ck := findFunc(fc, "ControllableTask", "Kill")
-	if ck == nil {
-		die("exectask: ControllableTask.Kill not found")
+	// ---- ControllableTask.Kill / doTermIntKill / Launch
+	ck := p.tokens("ControllableTask", "Kill")
+	etChain("ControllableTask.Kill", ck, "test:rpc-nil", "ret", "getstate")
+	etChain("ControllableTask.Kill", ck, "getstate", `test:"DONE"`, fmt.Sprintf("after:%d", killTrMs), "rpc=nil")
+	etChain("ControllableTask.Kill", ck, "getstate", "post:FINISHED:blk", sl(doneMs))
+	etChain("ControllableTask.Kill", ck, "post:FINISHED:blk", "pidExists", "call:doTermIntKill", "kill:grp:KILL")
+	etChain("ControllableTask.Kill", ck, "getstate", "post:KILLED:blk", "pidExists", "call:doTermIntKill", "kill:grp:KILL")
+	for _, t := range ck {
+		if strings.HasPrefix(t, "post:") && t != "post:KILLED:blk" && t != "post:FINISHED:blk" {
+			die("exectask: ControllableTask.Kill: unexpected %s", t)
+		}
 	}
-	etOrder("ControllableTask.Kill", etSrc(fsetC, ck),
-		`if t\.rpc == nil \{ return errors\.New\(`,
-		`\w+, \w+ := t\.rpc\.GetState\(`,
-		`for \w+ != "DONE" \{`,
-		`case <-time\.After\(KILL_TRANSITION_TIMEOUT\)`,
-		`\w+ = t\.rpc\.TaskCmd\.Process\.Pid`,
-		`_ = t\.rpc\.Close\(\) t\.rpc = nil`,
-		`if \w+ == "DONE" \{`,
-		`t\.pendingFinalTaskStateCh <- mesos\.TASK_FINISHED time\.Sleep\(DONE_TIMEOUT\)`,
-		`t\.pendingFinalTaskStateCh <- mesos\.TASK_KILLED`,
-		`if pidExists\(\w+\) \{ \w+ = t\.doTermIntKill\(\w+\) \}`,
-		`syscall\.Kill\(-\w+, syscall\.SIGKILL\)`,
-		`return \w+`)
-	tk := findFunc(fc, "ControllableTask", "doTermIntKill")
-	if tk == nil {
-		die("exectask: doTermIntKill not found")
+	tk := p.tokens("ControllableTask", "doTermIntKill")
+	etChain("doTermIntKill", tk, "kill:pid:TERM", sl(termMs), "pidExists", "kill:pid:INT", sl(intMs), "pidExists", "kill:pid:KILL")
+	for _, t := range tk {
+		if strings.HasPrefix(t, "kill:grp") {
+			die("exectask: doTermIntKill: unexpected %s (the model signals the target it is given)", t)
+		}
 	}
-	etOrder("doTermIntKill", etSrc(fsetC, tk),
-		`syscall\.Kill\(\w+, syscall\.SIGTERM\)`,
-		`time\.Sleep\(SIGTERM_TIMEOUT\)`,
-		`if pidExists\(\w+\) \{`,
-		`syscall\.Kill\(\w+, syscall\.SIGINT\)`,
-		`time\.Sleep\(SIGINT_TIMEOUT\)`,
-		`if !pidExists\(\w+\) \{ return \w+ \}`,
-		`return t\.doKill9\(\w+\)`)
-	cl := findFunc(fc, "ControllableTask", "Launch")
-	if cl == nil {
-		die("exectask: ControllableTask.Launch not found")
+	cl := p.tokens("ControllableTask", "Launch")
+	etChain("ControllableTask.Launch", cl, "mkchan:1", "start", "dial")
+	etChain("ControllableTask.Launch", cl, "dial", "test:rpc-nil", "wait", "take:nb", "status:var", `test:"STANDBY"`)
+	etChain("ControllableTask.Launch", cl, "getstate", `test:"STANDBY"`, `test:"DONE"`, "kill:pid:KILL", "kill:grp:KILL", "wait", "status:FAILED")
+	etChain("ControllableTask.Launch", cl, "getstate", `test:"ERROR"`, "kill:pid:KILL")
+	etChain("ControllableTask.Launch", cl, "status:RUNNING", "wait", "take:nb", "status:var")
+	etChain("ControllableTask.Launch", cl, sl(pollMs))
+
+	if os.Getenv("EXECTASK_DUMP") != "" {
+		for _, x := range []struct {
+			n string
+			t []string
+		}{{"doLaunch", dl}, {"ensureBasicTaskKilled", ek}, {"basicTaskBase.Kill", bk}, {"startBasicTask", sb},
+			{"ControllableTask.Kill", ck}, {"doTermIntKill", tk}, {"ControllableTask.Launch", cl}} {
+			fmt.Fprintf(os.Stderr, "%s: %s\n", x.n, strings.Join(x.t, " "))
+		}
 	}
-	etOrder("ControllableTask.Launch", etSrc(fsetC, cl),
-		`t\.pendingFinalTaskStateCh = make\(chan mesos\.TaskState, 1\)`,
-		`taskCmd\.Start\(\)`,
-		`t\.rpc = executorcmd\.NewClient\(`,
-		`if t\.rpc == nil \{`,
-		`for \{ if t\.rpc == nil \{`,
-		`taskCmd\.Wait\(\)`,
-		`case \w+ = <-t\.pendingFinalTaskStateCh:`,
-		`\w+, \w+ := \w+\.GetState\(`,
-		`if \w+ == "STANDBY" && \w+ == nil \{`,
-		`\} else if \w+ == "DONE" \|\| \w+ == "ERROR" \{`,
-		`syscall\.Kill\(\w+, syscall\.SIGKILL\)`,
-		`syscall\.Kill\(-taskCmd\.Process\.Pid, syscall\.SIGKILL\)`,
-		`taskCmd\.Wait\(\)`,
-		`\} else if \w+ >= startupTimeout \{`,
-		`t\.sendStatus\(t\.knownEnvironmentId, mesos\.TASK_RUNNING, ""\)`,
-		`err = taskCmd\.Wait\(\)`,
-		`select \{ case \w+ := <-t\.pendingFinalTaskStateCh: \w+ = \w+ default: \}`,
-		`t\.rpc = nil`,
-		`t\.sendStatus\(t\.knownEnvironmentId, \w+, ""\)`)
 
 	var b strings.Builder
 	b.WriteString("(* regenerated on every run by harness/cmd/translate (exectask) from\n   executor/executable/{controllabletask,basictaskcommon,task}.go *)\n")
